@@ -15,7 +15,9 @@ import (
 // `+`/leading zeros on integers, `1.0`/`1e0`/`+1`, True/TRUE/Null …, a trailing `:` in a
 // slice) plus the structural ones chosen here per step, also inside filter operands:
 // `.name` / `['name']` / `["name"]`, `.*` / `[*]` (after `..` too), and the leading `$`
-// omitted before a name or bracket. Every spelling is parsed and run on the same document:
+// omitted before a name or bracket. 35% of the cases draw keys from gen.go's BlankKeys, so that the
+// dot spelling needs a backslash at the first / last character (`.k\ `, also at the very end of the
+// path and after `..`). Every spelling is parsed and run on the same document:
 //   - all must return the same values, or errors of the same type (and expected/found types)
 //     that name the same step (the error's text is mapped back to the step index of that
 //     spelling),
@@ -57,6 +59,15 @@ func c18RespellStep(s *Step, r *Rng, feats map[string]bool) {
 			}
 		} else {
 			feats["spell:.name"] = true
+			if EscDot(s.Key) != s.Key {
+				feats[`spell:.na\ me (backslash escapes)`] = true
+			}
+			if strings.HasSuffix(s.Key, " ") {
+				feats[`spell:.name\  (ends in an escaped blank)`] = true
+			}
+			if strings.HasPrefix(s.Key, " ") {
+				feats[`spell:.\ name (starts with an escaped blank)`] = true
+			}
 		}
 	case StWild:
 		s.Bracket = r.Chance(50)
@@ -141,6 +152,8 @@ func (c18) Exec(seed int64, i int, tier string) Record {
 	o := DefaultOpts()
 	o.OddKeys = r.Chance(50)
 	o.ErrBias = 10
+	// names whose dot spelling needs a backslash at the first / last character (`.k\ `, `.\ `): 35% of the cases
+	o.BlankKeys = r.Chance(35)
 	cfg := Config(false, nil)
 	var doc interface{}
 	var p *Path
@@ -178,6 +191,15 @@ func (c18) Exec(seed int64, i int, tier string) Record {
 			default:
 				text = text[:at] + text[at+1:]
 				feats["spell:[…]… ($ omitted)"] = true
+			}
+		}
+		if ns := len(q.Steps); ns > 0 && len(q.Fns) == 0 {
+			last := q.Steps[ns-1]
+			if last.Kind == StDesc {
+				last = last.Inner
+			}
+			if last.Kind == StChild && !(last.Bracket || !DotSpellable(last.Key)) && strings.HasSuffix(last.Key, " ") {
+				feats[`spell:.name\  as the last thing of the path`] = true
 			}
 		}
 		sp := &c18Spelling{p: q, text: text}
